@@ -65,10 +65,20 @@ def main():
             for t in ts:
               if t not in tests: tests.append(t)
       t0 = time.time()
-      rt = sh(f'cd {WT} && /venv/bin/python -m pytest -q -p no:cacheprovider -x {" ".join(tests)} 2>&1 | tail -3', env=env())
-      out['tests_cmd'] = f'pytest -q {" ".join(tests)} (in scratch worktree with patch applied)'
+      base = json.load(open('/root/.vp/BASELINE.json'))
+      desel = []
+      for n in base['always_fail']:
+        if '::' in n and not n.startswith('::'):
+          mod, rest = n.split('::', 1)
+          parts = mod.split('.')
+          desel.append('/'.join(parts[:-1]) + '.py::' + parts[-1] + '::' + rest)
+      dz = ' '.join(f'--deselect {d}' for d in desel if d.split('::')[0] in tests)
+      rt = sh(f'cd {WT} && /venv/bin/python -m pytest -q -p no:cacheprovider {dz} {" ".join(tests)} 2>&1 | tail -3', env=env())
+      out['tests_cmd'] = f'pytest -q {" ".join(tests)} (in a scratch worktree with the patch applied; tests that already fail on the unmodified tree per BASELINE.json are deselected)'
       out['tests_result'] = rt.stdout.strip().splitlines()[-1] if rt.stdout.strip() else rt.stderr[-300:]
       out['tests_wall_s'] = round(time.time() - t0)
+    if '--tests-only' in sys.argv:
+      raise SystemExit
     t0 = time.time()
     e = dict(os.environ); e['VERIF_REPO'] = WT; e['VERIF_EVIDENCE_DIR'] = '/tmp/wt/evidence_scratch'
     cp = os.environ.get('CHECK_PROP', pid)
@@ -83,6 +93,8 @@ def main():
       out['detected_by'] = cp if rc.returncode == 1 else None
     if rc.returncode == 2:
       out['check_stderr'] = rc.stderr[-800:]
+  except SystemExit:
+    pass
   finally:
     sh(f'git -C {WT} checkout -- .; git -C {WT} clean -fdq')
   # restore our evidence for the clean tree is the caller's business
@@ -91,7 +103,7 @@ def main():
     shutil.copy(diff, f'{dst}/patch.diff'); shutil.copy(demo, f'{dst}/demo.py')
   old = {}
   if os.path.exists(f'{dst}/meta.json'): old = json.load(open(f'{dst}/meta.json'))
-  for key in ('tests_cmd', 'tests_result', 'tests_wall_s'):
+  for key in ('tests_cmd', 'tests_result', 'tests_wall_s', 'check_cmd', 'check_exit', 'check_wall_s', 'check_output', 'detected', 'detected_by'):
     if key not in out and key in old: out[key] = old[key]
   out['agent_meta'] = meta if 'agent_meta' not in meta else meta['agent_meta']
   json.dump(out, open(f'{dst}/meta.json', 'w'), indent=1)
